@@ -245,8 +245,15 @@ func Generate(rng *rand.Rand, caseIdx int, thorough bool, nKeys int, thr int) ([
 	}
 	commits := func(t *Txn) []Req {
 		sec := secondaries(t)
-		if len(sec) > 0 && rng.Intn(2) == 0 {
-			return []Req{{Kind: "commit", Txn: t.ID, Keys: []int{t.Primary}, CommitTs: t.Commit}, {Kind: "commit", Txn: t.ID, Keys: shuffled(sec), CommitTs: t.Commit}}
+		if len(sec) > 0 {
+			switch rng.Intn(5) {
+			case 0, 1:
+				return []Req{{Kind: "commit", Txn: t.ID, Keys: []int{t.Primary}, CommitTs: t.Commit}, {Kind: "commit", Txn: t.ID, Keys: shuffled(sec), CommitTs: t.Commit}}
+			case 2:
+				// the primary alone, then a request that names the (by then committed) primary
+				// ahead of the secondaries
+				return []Req{{Kind: "commit", Txn: t.ID, Keys: []int{t.Primary}, CommitTs: t.Commit}, {Kind: "commit", Txn: t.ID, Keys: append([]int{t.Primary}, shuffled(sec)...), CommitTs: t.Commit}}
+			}
 		}
 		return []Req{{Kind: "commit", Txn: t.ID, Keys: shuffled(t.Keys), CommitTs: t.Commit}}
 	}
@@ -453,7 +460,7 @@ func Generate(rng *rand.Rand, caseIdx int, thorough bool, nKeys int, thr int) ([
 // RuleCommon describes the shared workload of C17/C18/C19.
 const RuleCommon = "case = seeded history of 3-6 (thorough: up to 8) transactions over 3-4 keys (prefix-related, 0x00/0xFF, long) with unique start/commit timestamps from a counter (start/commit events interleaved fully at random or mostly sequentially with displaced events), " +
 	"each with a fate script (commit; rollback [+late commit]; TTL-expiry check + resolve-rollback + late commit; primary commit + resolve-commit [+rollback]; lock left; rollback before prewrite; check before prewrite; primary expired then commit; min_commit_ts of the primary pushed above the commit version, then a COMMIT naming the secondaries first) " +
-	"over PREWRITE put/delete/lock (split or whole), COMMIT (primary first or all keys in any order), BATCH_ROLLBACK, RESOLVE_LOCK commit/rollback, CHECK_TXN_STATUS (current_ts at/around lock.ts+ttl, ttl in {0,5,25,400,2^64-4}, caller_start_ts pushes, rollback_if_not_exist), " +
+	"over PREWRITE put/delete/lock (split or whole), COMMIT (primary first, primary first and then primary + secondaries in one request, or all keys in any order), BATCH_ROLLBACK, RESOLVE_LOCK commit/rollback, CHECK_TXN_STATUS (current_ts at/around lock.ts+ttl, ttl in {0,5,25,400,2^64-4}, caller_start_ts pushes, rollback_if_not_exist), " +
 	"scripts interleaved at random, 30% of cases with displaced requests, every request duplicated with p=0.15 at an arbitrary position, 30% of cases re-apply the whole command log, GET/SCAN requests and maintenance actions " +
 	"{rotate, rotate+flush, compact l0->base, l0->l0, ingest-drain, ingest-merge, level, vlog rewrite, RunValueLogGC, close/reopen} between requests (p=0.3 per gap; one case in eight flushes after six consecutive requests and then runs the L0->L0 compaction, which needs four L0 tables), applied through raftstore/kv.Apply on a real NoKV.DB under a drawn option set " +
 	"(skiplist/ART, value threshold 32/1024, 1/3 vlog buckets, background compaction paused). Reference model written from the property statements: per key a lock, write records, data by start_ts; it follows the responses where the statements leave the outcome open."
